@@ -64,6 +64,7 @@ class Engine:
         self.pc = []
         self.nfresh = 0
         self.inputs = {}         # name -> (kind, z3 expr | None)
+        self.ranges = {}
         self.model = None
         self.model_ok = False
         self.memo = {}
@@ -204,6 +205,7 @@ class Engine:
             return float(self.values[name])
         v = z3.Real(name)
         self.inputs[name] = ('real', v)
+        self.ranges[name] = (lo if not is_sym(lo) else None, hi if not is_sym(hi) else None)
         cs = []
         if lo is not None:
             cs.append(v > lift(lo) if lo_open else v >= lift(lo))
@@ -728,14 +730,14 @@ class SymReal:
             oe = lift(oo)
         except TypeError:
             return NotImplemented
-        return SymReal(uf('pow', 2)(self.e, oe))
+        return _pow_term(self.e, oe)
 
     def __rpow__(self, o):
         try:
             oe = lift(o)
         except TypeError:
             return NotImplemented
-        return SymReal(uf('pow', 2)(oe, self.e))
+        return _pow_term(oe, self.e)
 
     # -- comparisons
     def _cmp(self, o, f):
@@ -911,6 +913,15 @@ class SymReal:
             return res
         ins = [i.item() if isinstance(i, np.ndarray) else i for i in inputs]
         return scalar_ufunc(name, ins)
+
+
+def _pow_term(a, b):
+    """x^y as an uninterpreted function, with the instantiated axiom  x > 0  =>  x^y > 0"""
+    t = uf('pow', 2)(a, b)
+    E = ENG()
+    if E is not None and E.mode == 'sym':
+        E.axiom('pow(x,y) > 0 for x > 0', z3.Implies(a > 0, t > 0))
+    return SymReal(t)
 
 
 def _obj0(a):
@@ -1097,16 +1108,28 @@ def _x(v):
     return v
 
 
+def _cplx(v):
+    return isinstance(v, (complex, np.complexfloating))
+
+
 def near_eq(a, b):
     """a == b: exact on symbolic terms; up to EPS (relative) on concrete floats"""
     if is_sym(a) or is_sym(b):
         return a == b
+    if _cplx(a) or _cplx(b) or _is_nonfinite(a) or _is_nonfinite(b) or a != a or b != b:
+        if a != a or b != b:
+            return a != a and b != b
+        if _is_nonfinite(a) or _is_nonfinite(b):
+            return a == b
+        return abs(a - b) <= EPS * (1 + abs(b))
     a, b = _x(a), _x(b)
     return abs(a - b) <= EPS * (1 + abs(b))
 
 
 def near_le(a, b):
     if is_sym(a) or is_sym(b):
+        return a <= b
+    if _is_nonfinite(a) or _is_nonfinite(b):
         return a <= b
     a, b = _x(a), _x(b)
     return a <= b + EPS * (1 + abs(b))
